@@ -700,18 +700,72 @@ def M_entry(ex, n, a):
     v = recv(a)
     if isinstance(v, MapV):
         i = map_find(ex, v, a[1])
-        return EntryV(v, a[1], i)
+        # variant order of the Entry enum: std btree_map::Entry is (Vacant, Occupied); std hash_map / im::hashmap / im::ordmap are (Occupied, Vacant)
+        btree = bool(re.search(r'std::collections::(btree_map::|BTreeMap)', n))
+        return EntryV(v, a[1], i, btree)
     return NotImplemented
 
 
 class EntryV:
-    __slots__ = ('m', 'key', 'idx')
+    """map Entry (also usable as the enum: `match map.entry(k) { Occupied(e) => .., Vacant(e) => .. }`)"""
+    __slots__ = ('m', 'key', 'idx', 'btree')
 
-    def __init__(self, m, key, idx):
-        self.m = m; self.key = key; self.idx = idx
+    def __init__(self, m, key, idx, btree=False):
+        self.m = m; self.key = key; self.idx = idx; self.btree = btree
+
+    def occupied(self): return self.idx is not None
 
     def discriminant(self):
-        return 0 if self.idx is None else 1      # hash_map/btree_map::Entry: Vacant? std order: Occupied=0? (not relied upon)
+        occ_index = 1 if self.btree else 0
+        return occ_index if self.occupied() else 1 - occ_index
+
+    def proj_downcast(self, a):
+        if a != self.discriminant(): raise Unmodelled(f'downcast {a} of a map entry that is {"occupied" if self.occupied() else "vacant"}')
+        return self
+
+    def proj_field(self, a):
+        return self            # OccupiedEntry / VacantEntry: the same handle
+
+    def py_clone(self, ex): return self
+
+
+def _entry(a):
+    v = a[0] if a else None
+    while isinstance(v, Ref): v = v.get()
+    return v if isinstance(v, EntryV) else None
+
+
+def M_entry_get(ex, n, a):
+    e = _entry(a)
+    if e is None or not re.search(r'OccupiedEntry', n): return NotImplemented
+    i = map_find(ex, e.m, e.key)
+    return Ref(e.m.entries[i][1])
+
+
+def M_entry_insert(ex, n, a):
+    e = _entry(a)
+    if e is None or not re.search(r'(Occupied|Vacant)Entry', n): return NotImplemented
+    i = map_find(ex, e.m, e.key)
+    if 'OccupiedEntry' in n:
+        old = e.m.entries[i][1].v
+        e.m.entries[i][1].v = a[1]
+        return old
+    map_insert(ex, e.m, e.key, a[1])
+    return Ref(e.m.entries[map_find(ex, e.m, e.key)][1])
+
+
+def M_entry_remove(ex, n, a):
+    e = _entry(a)
+    if e is None or 'OccupiedEntry' not in n: return NotImplemented
+    i = map_find(ex, e.m, e.key)
+    k, c = e.m.entries.pop(i)
+    return c.v if n.endswith('::remove') else Agg('tuple', None, 0, [k, c.v])
+
+
+def M_entry_key(ex, n, a):
+    e = _entry(a)
+    if e is None or not re.search(r'(Occupied|Vacant)Entry', n): return NotImplemented
+    return Ref(Cell(e.key))
 
 
 def M_or_default(ex, n, a):
@@ -1576,8 +1630,8 @@ def B_set(ex, n, a):
 
 
 METHODS = {
-    'len': [M_len], 'is_empty': [M_is_empty], 'index': [M_index], 'index_mut': [M_index], 'get': [M_get], 'get_mut': [M_get_mut],
-    'contains_key': [M_contains_key], 'contains': [M_contains], 'insert': [M_insert], 'remove': [M_remove], 'remove_entry': [M_remove_entry], 'push': [M_push], 'push_back': [M_push],
+    'len': [M_len], 'is_empty': [M_is_empty], 'index': [M_index], 'index_mut': [M_index], 'get': [M_entry_get, M_get], 'get_mut': [M_entry_get, M_get_mut], 'into_mut': [M_entry_get], 'key': [M_entry_key], 'remove_entry': [M_entry_remove, M_remove_entry],
+    'contains_key': [M_contains_key], 'contains': [M_contains], 'insert': [M_entry_insert, M_insert], 'remove': [M_entry_remove, M_remove], 'push': [M_push], 'push_back': [M_push],
     'push_front': [M_push_front], 'pop': [M_pop], 'pop_back': [M_pop], 'pop_front': [M_pop_front], 'front': [M_front], 'back': [M_back],
     'first': [M_first], 'last': [M_last], 'first_key_value': [M_first_key_value], 'last_key_value': [M_last_key_value],
     'split_off': [M_split_off], 'append': [M_append], 'clear': [M_clear], 'truncate': [M_truncate], 'retain': [M_retain], 'retain_mut': [M_retain],
